@@ -92,10 +92,15 @@ impl Header {
         // value, so a future REPE revision can assign meaning to these bits
         // without breaking this receiver.
 
-        let expected = HEADER_SIZE as u64 + query_length + body_length;
-        if length != expected {
+        // The three lengths are peer-controlled 64-bit values: a sum that
+        // overflows can never equal `length`, so it is a mismatch rather than
+        // a panic (debug builds) or a wrapped "consistent" header (release).
+        let expected = (HEADER_SIZE as u64)
+            .checked_add(query_length)
+            .and_then(|n| n.checked_add(body_length));
+        if expected != Some(length) {
             return Err(RepeError::LengthMismatch {
-                expected,
+                expected: expected.unwrap_or(u64::MAX),
                 got: length,
             });
         }
